@@ -1,5 +1,10 @@
+from typing import Optional
+
 from idpyoidc.client.oauth2 import refresh_access_token
+from idpyoidc.client.oidc.access_token import AccessToken
+from idpyoidc.exception import ParameterError
 from idpyoidc.message import oidc
+from idpyoidc.message.oidc import verified_claim_name
 
 
 class RefreshAccessToken(refresh_access_token.RefreshAccessToken):
@@ -13,3 +18,25 @@ class RefreshAccessToken(refresh_access_token.RefreshAccessToken):
             return _work_environment.get_usage("token_endpoint_auth_method")
         except KeyError:
             return self.default_authn_method
+
+    # An ID Token in a refresh response is verified with what is verified in a token response
+    gather_verify_arguments = AccessToken.gather_verify_arguments
+
+    def update_service_context(self, resp, key: Optional[str] = "", **kwargs):
+        _idt = resp.get(verified_claim_name("id_token"))
+        if _idt is not None:
+            # OpenID Connect Core 12.2: the new ID Token is about the same end-user, and when it
+            # has a nonce it is the nonce of the request this session started with.
+            _cstate = self.upstream_get("context").cstate
+            _before = _cstate.get_claim(key, verified_claim_name("id_token"))
+            if _before is not None and _idt.get("sub") != _before.get("sub"):
+                raise ParameterError("The ID Token is about someone else")
+            if "nonce" in _idt:
+                try:
+                    _bound = _cstate.get_base_key(_idt["nonce"])
+                except KeyError:
+                    raise ValueError("Invalid nonce value")
+                if _bound != key:
+                    raise ParameterError('Someone has messed with "nonce"')
+
+        refresh_access_token.RefreshAccessToken.update_service_context(self, resp, key, **kwargs)
